@@ -13,3 +13,4 @@ for tc in ET.parse(sys.argv[1]).iter('testcase'):
     if not any(ch.tag in ('failure','error','skipped') for ch in tc): passed.add(tc.get('classname')+'::'+tc.get('name'))
 print('passed',len(passed),'baseline',len(base),'missing from baseline:',sorted(base-passed))
 PY
+rm -f /repo/test.xlsx
